@@ -3,6 +3,7 @@ package eng
 
 import (
 	"context"
+	"errors"
 	"fmt"
 	"math/rand"
 	"sync"
@@ -162,6 +163,10 @@ func (d *Director) Behaviour(c *h.HCall) (*puppet.Rep, error) {
 	}
 	switch p.Act {
 	case ActError:
+		if p.Code == codes.Unknown {
+			// a plain Go error, not a gRPC status: the caller sees it as code Unknown with the error's text
+			return nil, errors.New(p.Msg)
+		}
 		return nil, statusErr(p.Code, p.Msg)
 	default:
 		if c.Send != nil {
